@@ -6,7 +6,7 @@
    lease, acknowledgement, snapshot, seek). *)
 From MB Require Import Base.
 From MB.Bus Require Import State Ops Step Defs L_Tables L_Good L_Helpers L_Step T_Inv.
-From MB.Bus Require Import T_C01 T_C02 T_C03 T_C04 T_C05 T_C06 T_C13 T_C14 T_Spec.
+From MB.Bus Require Import T_C01 T_C02 T_C03 T_C04 T_C05 T_C06 T_C13 T_C14 T_Spec T_Live.
 Local Open Scope string_scope.
 Open Scope list_scope.
 Open Scope Z_scope.
@@ -366,3 +366,34 @@ Print Assumptions c01_publish_delivers_here.
 Print Assumptions c01_never_lost_here.
 Print Assumptions c05_no_overtake_history_here.
 Print Assumptions c13_snapshot_meaning_here.
+
+(* ---- T_Live: on st_pub the subscription holds three outstanding deliveries, all due at 400; 21
+   waits behind 20 (same key): the backlog does not block itself, and the legal pull serves it ---- *)
+Example c01_backlog_never_deadlocks_here :
+  (exists s, find_live_sub st_pub sn = Some s /\
+     (exists d, In d (dels st_pub) /\ d_id d = 21%N /\ T_Live.live_on s 400 d = true /\ pred_blocks st_pub 400 d = true) /\
+     (exists d, In d (dels st_pub) /\ eligible st_pub s 400 d = true)) /\
+  (exists d, In d (dels st_pub) /\
+     exists p, In p (pulled_of (answer st_pub 400 o_pull1)) /\ p_ack p = d_id d).
+Proof.
+  destruct (find_live_sub st_pub sn) as [s|] eqn:Es; [|vm_compute in Es; discriminate].
+  assert (Hex : exists d, In d (dels st_pub) /\ T_Live.live_on s 400 d = true).
+  { vm_compute in Es. injection Es as <-. eexists. split; [left; reflexivity|vm_compute; reflexivity]. }
+  assert (Hdue : forall d, In d (dels st_pub) -> T_Live.live_on s 400 d = true -> d_attempt_at d <= 400).
+  { vm_compute in Es. injection Es as <-. intros d Hd _. vm_compute in Hd.
+    repeat (destruct Hd as [<-|Hd]; [vm_compute; discriminate|]). destruct Hd. }
+  split.
+  - exists s. split; [reflexivity|]. split.
+    + vm_compute in Es. injection Es as <-.
+      eexists. split; [right; left; reflexivity|]. repeat split; vm_compute; reflexivity.
+    + exact (T_Live.C01_ordered_backlog_never_deadlocks st_pub s 400 reach_pub Hex Hdue).
+  - destruct pull_hypotheses_here as (U & L & _).
+    assert (H110 : 1 <= 10) by (apply Z.leb_le; reflexivity).
+    destruct (T_Live.C01_pull_serves_a_due_backlog st_pub 400 sn 10 [20%N; 22%N] [] 400 [] [] s
+                reach_pub L eq_refl H110 Es Hex Hdue) as [d [Hd [_ [[Hdl _]|[_ [p [Hp [Ha _]]]]]]]].
+    + vm_compute in Es. injection Es as <-. vm_compute. discriminate.
+    + intros m' Hm'. vm_compute in Hm'. repeat (destruct Hm' as [<-|Hm']; [vm_compute; split; [discriminate|discriminate]|]). destruct Hm'.
+    + exfalso. vm_compute in Es. injection Es as <-. vm_compute in Hd.
+      repeat (destruct Hd as [<-|Hd]; [vm_compute in Hdl; discriminate|]). destruct Hd.
+    + exists d. split; [exact Hd|]. exists p. split; assumption.
+Qed.
